@@ -260,6 +260,40 @@ func cmdReplay(args []string) int {
 	}
 	bin := buildBinary(rf.Spec.Race) // a data-race report replays under the -race build
 	sp := rf.Spec
+	if len(args) > 2 && args[1] == "-rerecord" {
+		// the tree or the machinery moved on since the file was written and the recorded
+		// vector no longer replays without divergence, but still leads to the violation:
+		// record the vector of that (lenient) run and keep it if it reproduces strictly
+		sp.Record = true
+		r := runSpec(bin, sp, 1)
+		if r.Records == nil {
+			fatal2("no decision vector recorded")
+		}
+		sp2 := rf.Spec
+		sp2.Replay = r.Records
+		r2 := runSpec(bin, sp2, 2)
+		if r2.Diverged != 0 || !hasViolation(rf.Property, rf.Rule, r2, bin, 3) {
+			fmt.Printf("the re-recorded vector does not reproduce %s/%s strictly (diverged=%d)\n", rf.Property, rf.Rule, r2.Diverged)
+			return 2
+		}
+		rf.Spec = sp2
+		for _, v := range violationsFor(rf.Property, r2, bin, 4) {
+			if v.Rule == rf.Rule {
+				rf.Detail = v.Detail
+				break
+			}
+		}
+		rf.Decisions, rf.NonZero = countDecisions(r.Records)
+		rf.Minimised = false
+		rf.Scenario, rf.History, rf.Trace = r2.Sample, r2.HistTail, tail(r2.Trace, 200)
+		rf.HowToReplay = "cd /verif && ./check replay " + args[2]
+		b, _ := json.MarshalIndent(rf, "", " ")
+		if err := os.WriteFile(args[2], b, 0644); err != nil {
+			fatal2("replay file: %v", err)
+		}
+		fmt.Printf("re-recorded into %s (%d decisions)\n", args[2], len(r.Records))
+		return 0
+	}
 	sp.Trace = len(args) > 1 && args[1] == "-trace"
 	r := runSpec(bin, sp, 1)
 	vs := violationsFor(rf.Property, r, bin, 2)
